@@ -180,13 +180,29 @@ def check_src_consumption(rep, I, st, where):
     wl = IntF(74, 2)
     cond_ok = False
     cur = [k for k in L.carried if not k.startswith("DataStream")]
-    if isinstance(L.cond, Op) and L.cond.op in ("gt", "lt", "ge", "le") and cur:
+    if isinstance(L.cond, Op) and L.cond.op in ("gt", "lt", "ge", "le", "ne") and cur:
         lvs = [x for x in walk(L.cond) if isinstance(x, Sym) and x.kind == "loopvar"]
-        others = [x for x in walk(L.cond) if pelx.as_int_field(x)]
-        cond_ok = len(lvs) == 1 and any(pelx.as_int_field(x)[0] == Const(74) for x in others) and \
-            equivalent(subst(L.cond, {lvs[0]: Const(4)}), compare("gt", mul(Const(4), wl), Const(4)))[0]
-        init = L.carried[lvs[0].name.split(":", 1)[1]][0] if lvs else None
-        cond_ok = cond_ok and init == Const(4)
+        if len(set(lvs)) == 1:
+            # the counter v runs as  init + s*S  (S = bytes of the callouts constructed so far, s = +1 counting up,
+            # -1 counting the remaining bytes down); the walk continues exactly while 4*wordLength > 4 + S
+            v = lvs[0]
+            init, nxt = L.carried[v.name.split(":", 1)[1]][:2]
+            step = nxt.a if isinstance(nxt, Ite) and nxt.c == L.cond else nxt
+            sign = None
+            try:
+                d = sub(step, v)
+                coeffs = {c_ for _, c_ in d.terms} if isinstance(d, Lin) else ({1} if isinstance(d, (Op, Ite)) else set())
+                if isinstance(d, Lin) and coeffs in ({1}, {-1}) and d.const * min(coeffs) >= 0:
+                    sign = coeffs.pop()
+                elif coeffs == {1}:
+                    sign = 1
+            except Exception:
+                sign = None
+            if sign is not None and any(pelx.as_int_field(x) and pelx.as_int_field(x)[0] == Const(74) for x in walk(add(init, Op("id", L.cond)))):
+                S = Sym("S", "int")
+                run = add(init, mul(Const(sign), S))
+                cond_ok = equivalent(ite(subst(L.cond, {v: run}), Const(1), Const(0)),
+                                     ite(compare("gt", mul(Const(4), wl), add(Const(4), S)), Const(1), Const(0)))[0]
     rep.check(cond_ok, "C01.R4.consumption", "callout walk bounded by 4 * subsection word length, counter starts at 4",
               "SRC.getCallouts", L.node, "callout walk is not bounded by the subsection length field (words * 4, "
               "header of 4 bytes included): %r" % (L.cond,), node=L.node)
